@@ -501,3 +501,129 @@ Proof.
   rewrite Esum_filter by exact Ha. rewrite (Esum_zero c _ _ Hb).
   unfold spec_energy. rewrite Ho. lra.
 Qed.
+
+(* ================================================================== witnesses (findings and non-vacuity) *)
+
+Lemma Zfloor_val x n : IZR n <= x < IZR n + 1 -> Zfloor x = n.
+Proof. intros H. apply Zfloor_spec. exact H. Qed.
+
+Definition w_var : varR := mkVar false 1 1 1 false false false false.
+Definition w_cfg : cfgR := mkCfg [w_var] [mkBound 0 8 8%Z] 1 0 2%Z 2%Z true false false 1 1 false.
+Definition w_i1 : inR := mkIn 2%Z 2%Z false [3/2].
+Definition w_i2 : inR := mkIn 3%Z 3%Z false [-(1/4)].
+
+Lemma w_run : spec_run w_cfg ([w_i1] ++ [w_i2]) = mkS [mkHill 2%Z 1 [3/2]] [].
+Proof. reflexivity. Qed.
+
+Lemma w_hyps : no_expand w_cfg /\ wt_cfg_ok w_cfg /\ Forall (wt_dep_inside w_cfg) ([w_i1] ++ [w_i2]).
+Proof.
+  split; [reflexivity|]. split; [left; reflexivity|].
+  repeat constructor; intros W; discriminate W.
+Qed.
+
+Lemma w_outside : in_grid w_cfg (i_x w_i2) = false.
+Proof.
+  unfold in_grid, w_cfg, w_i2, w_var. cbn [c_use_grids c_geom0 c_vars i_x cbins gsizes map b_nx b_lower v_width andb].
+  unfold value_to_bin. cbn [nfloor ndiv nsub Rops].
+  rewrite (Zfloor_val _ (-1)%Z) by (simpl; lra). reflexivity.
+Qed.
+
+Lemma w_not_near : near w_cfg (mkHill 2%Z 1 [3/2]) = false.
+Proof.
+  unfold near, near_edge, off_margin, w_cfg, w_var.
+  cbn [c_vars c_geom0 c_hill_width h_c bin_dist v_gperiodic v_periodic v_width v_hard_lo v_hard_up b_lower b_upper negb andb].
+  unfold vdiff, nsq. cbn [v_periodic nsub nmul ndiv nsqrt nadd nneg n1 nofZ nfloor nltb Rops].
+  rewrite (Zfloor_val 0 0%Z) by (simpl; lra).
+  replace ((3 / 2 - 0) * (3 / 2 - 0)) with ((3 / 2) * (3 / 2)) by lra.
+  replace ((3 / 2 - 8) * (3 / 2 - 8)) with ((13 / 2) * (13 / 2)) by lra.
+  rewrite !sqrt_square by lra.
+  assert (H1 : Rltb (3 / 2) 0 = false) by (apply Rltb_false; lra).
+  assert (H2 : Rltb 8 (3 / 2) = false) by (apply Rltb_false; lra).
+  rewrite H1, H2.
+  assert (H3 : Rltb (3 / 2 / 1) (IZR 10000000000000000) = true) by (apply Rltb_true; lra).
+  rewrite H3.
+  assert (H4 : Rltb (13 / 2 / 1) (3 / 2 / 1) = false) by (apply Rltb_false; lra).
+  rewrite H4.
+  apply Rltb_false. simpl. lra.
+Qed.
+
+Lemma outside_grid_refuted :
+  exists (c : cfgR) (hist : list inR) (i : inR),
+    no_expand c /\ wt_cfg_ok c /\ Forall (wt_dep_inside c) (hist ++ [i]) /\
+    c_use_grids c = true /\ in_grid c (i_x i) = false /\
+    out_energy c hist i <> spec_energy c (spec_run c (hist ++ [i])) (i_x i).
+Proof.
+  exists w_cfg, [w_i1], w_i2. destruct w_hyps as [H1 [H2 H3]].
+  split; [exact H1|]. split; [exact H2|]. split; [exact H3|]. split; [reflexivity|]. split; [exact w_outside|].
+  rewrite (outside_grid_implemented w_cfg [w_i1] w_i2 H1 H2 H3 eq_refl w_outside).
+  unfold spec_energy. rewrite w_outside, w_run. unfold s_all. cbn [s_tab s_pend app filter].
+  rewrite w_not_near. rewrite !Esum_nil.
+  unfold Esum. cbn [map Rsum]. unfold K, w_cfg, w_i2, w_var. cbn [c_vars h_W h_c i_x Qexp v_sigma].
+  unfold mdiff. cbn [v_periodic]. unfold gauss.
+  destruct (Rlt_dec 23 ((- (1 / 4) - 3 / 2) * (- (1 / 4) - 3 / 2) / (1 * 1) + 0)) as [Hlt|_]; [exfalso; lra|].
+  pose proof (exp_pos (- (1 / 2) * ((- (1 / 4) - 3 / 2) * (- (1 / 4) - 3 / 2) / (1 * 1) + 0))) as Hp.
+  lra.
+Qed.
+
+(* well-tempered, one step outside the grid *)
+Definition u_cfg : cfgR := mkCfg [w_var] [mkBound 0 8 8%Z] 1 0 1%Z 1%Z true false true 1 1 false.
+Definition u_i : inR := mkIn 1%Z 1%Z false [-(1/4)].
+
+Lemma u_read : wt_energy_here Rops u_cfg (init_state Rops u_cfg) (i_x u_i) = (0, true).
+Proof.
+  unfold wt_energy_here, u_cfg, u_i, w_var, init_state.
+  cbn [c_use_grids c_geom0 c_vars i_x cbins gsizes map b_nx b_lower v_width st_geom].
+  unfold value_to_bin. cbn [nfloor ndiv nsub Rops].
+  rewrite (Zfloor_val _ (-1)%Z) by (simpl; lra). reflexivity.
+Qed.
+
+Lemma wt_outside_refuted :
+  exists (c : cfgR) (hist : list inR),
+    no_expand c /\ wt_cfg_ok c /\ st_ub (final_state Rops c hist) = true.
+Proof.
+  exists u_cfg, [u_i]. split; [reflexivity|]. split; [right; right; exists 1%Z; reflexivity|].
+  unfold final_state. cbn [fold_left]. unfold step_state. rewrite ugp_id by reflexivity.
+  change (c_use_grids u_cfg) with true. cbv iota.
+  unfold update_grid_data. change (i_it u_i mod c_gfreq u_cfg =? 0)%Z with true. cbv iota.
+  unfold project. cbn [st_ub].
+  unfold update_bias. change (deposit_now u_cfg u_i) with true. cbv iota.
+  change (c_wt u_cfg) with true. cbv iota. rewrite u_read. reflexivity.
+Qed.
+
+(* non-vacuity of the premises used above *)
+Lemma w_inside : in_grid w_cfg (i_x w_i1) = true.
+Proof.
+  unfold in_grid, w_cfg, w_i1, w_var. cbn [c_use_grids c_geom0 c_vars i_x cbins gsizes map b_nx b_lower v_width andb].
+  unfold value_to_bin. cbn [nfloor ndiv nsub Rops].
+  rewrite (Zfloor_val _ 1%Z) by (simpl; lra). reflexivity.
+Qed.
+
+Definition u_in : inR := mkIn 1%Z 1%Z false [3/2].
+Lemma u_inside_dep : c_wt u_cfg = true /\ c_use_grids u_cfg = true /\ eligible u_cfg u_in = true /\
+  wt_dep_inside u_cfg u_in /\ in_grid u_cfg (i_x u_in) = true.
+Proof.
+  assert (H : in_grid u_cfg (i_x u_in) = true).
+  { unfold in_grid, u_cfg, u_in, w_var. cbn [c_use_grids c_geom0 c_vars i_x cbins gsizes map b_nx b_lower v_width andb].
+    unfold value_to_bin. cbn [nfloor ndiv nsub Rops].
+    rewrite (Zfloor_val _ 1%Z) by (simpl; lra). reflexivity. }
+  repeat split; try reflexivity; [intros _ _ _; exact H|exact H].
+Qed.
+
+(* far outside the grid the dropped hill does not reach x: the premises of outside_grid_partial hold *)
+Definition w_i3 : inR := mkIn 3%Z 3%Z false [-20].
+Lemma w_far : in_grid w_cfg (i_x w_i3) = false /\
+  (forall h, In h (s_all (spec_run w_cfg ([w_i1] ++ [w_i3]))) -> near w_cfg h = false -> K (c_vars w_cfg) h (i_x w_i3) = 0) /\
+  (forall h, In h (s_pend (spec_run w_cfg ([w_i1] ++ [w_i3]))) -> K (c_vars w_cfg) h (i_x w_i3) = 0) /\
+  s_all (spec_run w_cfg ([w_i1] ++ [w_i3])) <> [].
+Proof.
+  assert (Hr : spec_run w_cfg ([w_i1] ++ [w_i3]) = mkS [mkHill 2%Z 1 [3/2]] []) by reflexivity.
+  rewrite Hr. unfold s_all. cbn [s_tab s_pend app]. repeat split.
+  - unfold in_grid, w_cfg, w_i3, w_var. cbn [c_use_grids c_geom0 c_vars i_x cbins gsizes map b_nx b_lower v_width andb].
+    unfold value_to_bin. cbn [nfloor ndiv nsub Rops].
+    rewrite (Zfloor_val _ (-20)%Z) by (simpl; lra). reflexivity.
+  - intros h [<-|[]] _. unfold K, w_cfg, w_i3, w_var. cbn [c_vars h_W h_c i_x Qexp v_sigma].
+    unfold mdiff. cbn [v_periodic]. unfold gauss.
+    destruct (Rlt_dec 23 ((-20 - 3 / 2) * (-20 - 3 / 2) / (1 * 1) + 0)) as [_|Hn]; [lra|exfalso; apply Hn; lra].
+  - intros h [].
+  - discriminate.
+Qed.
